@@ -22,6 +22,7 @@ import (
 	"errors"
 	"fmt"
 	"github.com/nuts-foundation/go-did/did"
+	"golang.org/x/net/idna"
 	"net"
 	"net/url"
 	"strings"
@@ -107,11 +108,34 @@ func DIDToURL(id did.DID) (*url.URL, error) {
 	if parsedURL.Host != unescapedID {
 		return nil, fmt.Errorf("invalid did:web: illegal characters in domain name")
 	}
-	parsedIP := net.ParseIP(parsedURL.Hostname())
-	if parsedIP != nil {
+	if isIPAddress(parsedURL.Hostname()) {
 		return nil, fmt.Errorf("invalid did:web: ID must be a domain name, not IP address")
 	}
 	return parsedURL, nil
+}
+
+// isIPAddress checks whether the host name denotes an IP address for the party that connects to it, which is more lenient than net.ParseIP:
+//   - net/http maps a non-ASCII host name to ASCII (IDNA/UTS-46) before it connects, which a.o. turns fullwidth digits into
+//     ASCII digits and the ideographic full stop into a dot. So the mapped name must be checked.
+//   - the system resolver (getaddrinfo) accepts the inet_aton notations of an IPv4 address: fewer than 4 parts, hexadecimal and octal
+//     parts (e.g. 127.1, 2130706433, 0x7f.0.0.1). The last label of a domain name is never numeric (RFC 3696, section 2),
+//     so a host name that ends in a number is an IPv4 address (same rule as the WHATWG URL standard applies).
+func isIPAddress(hostname string) bool {
+	if mapped, err := idna.Lookup.ToASCII(hostname); err == nil {
+		hostname = mapped
+	}
+	if net.ParseIP(hostname) != nil {
+		return true
+	}
+	labels := strings.Split(strings.TrimSuffix(hostname, "."), ".")
+	lastLabel := strings.ToLower(labels[len(labels)-1])
+	if lastLabel == "" {
+		return false
+	}
+	if hexDigits, isHex := strings.CutPrefix(lastLabel, "0x"); isHex {
+		return strings.Trim(hexDigits, "0123456789abcdef") == ""
+	}
+	return strings.Trim(lastLabel, "0123456789") == ""
 }
 
 // percentDecodeString decodes all percent-encoded characters in a DID-specific ID string.
